@@ -180,6 +180,7 @@ pub fn text_match(rtext: &TextRef, qtext: &TextRef, tls: &mut Tls, tlsm: &mut Tl
                         __i0 >= 1 && need ==> qmatches@[0] is Some, // [C13]
                         __i0 == 0 ==> (forall|k: int| 0 <= k < rmatches@.len() ==> rmatches@[k] is None),
                         fin_inv(rmatches@, qmatches@, qtext), // [C13]
+                        some_slot(rmatches@) ==> some_slot(qmatches@),
                     decreases __end0 - __i0,
                     {
                         let qword = &qtext.words[__i0];
@@ -204,6 +205,7 @@ pub fn text_match(rtext: &TextRef, qtext: &TextRef, tls: &mut Tls, tlsm: &mut Tl
                                 // while the first query word is being matched a record slot is only filled together with that word's slot
                                 qk == 0 && some_slot(rmatches@) ==> qmatches@[0] is Some, // [C13]
                                 qk == 0 ==> some_slot(rmatches@) || all_none(qmatches@), // [C14]
+                                some_slot(rmatches@) ==> some_slot(qmatches@),
                                 // TM-some: for the first query word, every record word seen so far that must match has left a candidate or a filled slot
                                 qk == 0 ==> candidate is Some || some_slot(rmatches@) || (forall|j: int| 0 <= j < __i1 ==> !#[trigger] must_any(rtext, qtext, j)),
                             ensures qk == 0 ==> candidate is Some || some_slot(rmatches@) || (forall|j: int| 0 <= j < __end1 ==> !#[trigger] must_any(rtext, qtext, j)),
@@ -225,6 +227,11 @@ pub fn text_match(rtext: &TextRef, qtext: &TextRef, tls: &mut Tls, tlsm: &mut Tl
                             let __r3 = if __r2.is_none() { text_match__c2(rtext, qtext, &rword, &qword, rmatches, qmatches, &mut candidate, &mut stop, tls) } else { __r2 };
                             let __r4 = if __r3.is_none() { text_match__c3(rtext, qtext, &rword, &qword, rmatches, qmatches, &mut candidate, &mut stop, tls) } else { __r3 };
                             proof {
+                                if __r2 is Some || __r3 is Some { assert(qmatches@[qk] is Some); }
+                                else {
+                                    assert(rmatches@ == rm1);
+                                    if some_slot(qm1) { let k = choose|k: int| 0 <= k < qm1.len() && #[trigger] qm1[k] is Some; assert(qmatches@[k] is Some); }
+                                }
                                 if qk == 0 {
                                     if __r2 is Some || __r3 is Some { assert(some_slot(rmatches@)); }
                                     else if must_pair(rtext, qtext, __i1 as int - 1) { assert(candidate is Some); }
@@ -262,6 +269,7 @@ pub fn text_match(rtext: &TextRef, qtext: &TextRef, tls: &mut Tls, tlsm: &mut Tl
                             qmatches[qoffset] = Some(qmatch);
                             proof {
                                 assert(qoffset == qk);
+                                assert(qmatches@[qk] is Some);
                                 assert(mono_slots(qm2, qmatches@));
                                 assert forall|j: int| #[trigger] unfin_at(rmatches@, j) implies unfin_slot(qmatches@, qtext) by {
                                     if j == roffset { assert(!qword.fin); assert(qmatches@[qk] is Some && !qtext.words@[qk].fin); }
@@ -334,6 +342,12 @@ pub fn text_match(rtext: &TextRef, qtext: &TextRef, tls: &mut Tls, tlsm: &mut Tl
                     qmatches.clear();
                     proof {
                         lemma_collected_ok(__out6@, qtext);
+                        // pairs
+                        if rmatches2@.len() >= 1 {
+                            assert(rmS[rmatches2@[0].offset as int] is Some);
+                            let k = choose|k: int| 0 <= k < qmS.len() && #[trigger] qmS[k] is Some;
+                            let b = choose|b: int| 0 <= b < __out6@.len() && (#[trigger] __out6@[b]).offset == k;
+                        }
                         // TM-first
                         if need { assert(qmS[0] is Some); assert(first_matched(__out6@)); }
                         // TM-fin
